@@ -65,6 +65,9 @@ fn main() {
                         .spawn(move || {
                             let mut ctx = Ctx::new(&prop, &build, tier, seed, w, nworkers);
                             run(&mut ctx);
+                            for (k, n) in bva_monitor::spec::take_via_counts() {
+                                ctx.bucket_n(&k, n);
+                            }
                             ctx
                         })
                         .expect("spawn"),
